@@ -18,8 +18,9 @@ package broker
 //                     generation must be higher than it was at t ("the group rebalances").
 //   liveness-rebalance a silent client that has not joined the current generation while the
 //                     group is in PreparingRebalance must be gone once
-//                     max(RT of all clients) + cleanupInterval + 1ms have passed since the
-//                     harness last saw the generation change.
+//                     2 x max(RT of all clients) + cleanupInterval + 1ms have passed since the
+//                     harness last saw the generation change (the factor 2 leaves room for an
+//                     implementation that restarts the timeout when a member first re-joins).
 //   safety            a client whose consecutive requests are never further apart than
 //                     min(S, smallest RT) is a member at every observation, never gets
 //                     UNKNOWN_MEMBER_ID and never has its member id replaced by a join.
@@ -207,7 +208,7 @@ func (s *c43Sim) observe() c43WB {
 				continue
 			}
 			if w.phase == groupStatePreparingRebalance && c.gen != w.gen && s.inc == c.incAtLast {
-				if now-s.bumpSeen > s.rtMax+s.interval+time.Millisecond {
+				if now-s.bumpSeen > 2*s.rtMax+s.interval+time.Millisecond {
 					sessionBoundPassed := now > c.lastReq+c43Ms(c.SessMs)+s.interval+time.Millisecond
 					if s.opts.excludeReb && !sessionBoundPassed {
 						if !c.exclCounted {
@@ -216,7 +217,7 @@ func (s *c43Sim) observe() c43WB {
 						}
 						continue
 					}
-					s.violate("liveness-rebalance: client %d silent since %s has not joined generation %d; the generation changed %s ago (> max rebalance timeout %s + cleanup %s) and the group is still in PreparingRebalance with it as a member", c.idx, c.lastReq, w.gen, now-s.bumpSeen, s.rtMax, s.interval)
+					s.violate("liveness-rebalance: client %d silent since %s has not joined generation %d; the generation changed %s ago (> 2 x max rebalance timeout %s + cleanup %s) and the group is still in PreparingRebalance with it as a member", c.idx, c.lastReq, w.gen, now-s.bumpSeen, s.rtMax, s.interval)
 				}
 			}
 		}
